@@ -12,6 +12,9 @@ def run(R, tier, seed, only=None):
     if only in (None, "sqlstr"):
         import sqlstr
         sqlstr.check_sqlstr(R, d, tier)
+    if only in (None, "litnum"):
+        import sqlstr
+        sqlstr.check_litnum(R, d, tier)
     if only in (None, "strlex"):
         import strlex
         strlex.check_strlex(R, d, tier)
